@@ -47,6 +47,11 @@ def judge_traces(run, scs, traces, prefixes, name=None, shards=8):
             continue
         sc = byid[b["id"]]
         run.violation(b["clause"], describe(sc), {"event_index": b["at"], "event": b["ev"], "scenario": sc["id"]}, replay=sc)
+    if run.tier == "thorough" and not getattr(run, "is_replay", False) and not getattr(run, "_suite_done", False):
+        # thorough tier: the same clauses on the executions of the repository's own tests (vf.suite), once per run
+        from vf import suite
+        run._suite_done = True
+        suite.phase(run, prefixes)
     return v
 
 
